@@ -113,7 +113,7 @@ def check_path(path, s, goalset, w, objective, lab_inv):
     return None
 
 
-LABELS = [None, ["a", "b", "c", "d"], [("p", 0), ("p", 1), ("q", 0), ("q", 1)]]
+LABELS = [None, ["a", "b", "c", "d"], [("p", 0), ("p", 1), ("q", 0), ("q", 1)], [None, 0, "", (2,)]]  # last: falsy / None labels
 
 
 def _run_nonneg(r, n, arcs, full):
@@ -211,6 +211,8 @@ def _run_nonneg(r, n, arcs, full):
                         judge_single("dijkstra", dijkstra(lab(s), g, nbw, **kw), s, gset, D[s], True, ex, limited=limited)
                     except Exception as e:  # noqa: BLE001
                         emit("dijkstra", "raised", f"{type(e).__name__}: {e}", ex)
+                    if g is None:
+                        continue  # for bfs/dfs the goal value None means "no goal": a node labelled None cannot be a value goal
                     try:
                         judge_single("bfs", bfs(lab(s), g, nbu, **kw), s, gset, H[s], False, ex, limited=limited)
                     except Exception as e:  # noqa: BLE001
